@@ -70,6 +70,16 @@ def gen_cases(ck):
         ros = G.gen_ros(rng, det); ros["robs"] = [rob]
         sd["ros"] = [ros]; ev["subs"] = [sd]
         cases.append({"mask": 63, "w": G.enc_items([(None, ev)]).w, "kind": "wellformed", "label": "big-rob"})
+    # ... and ROB payloads just below / at / above the sizes at which an implementation may switch buffers (powers of two in words or bytes)
+    sizes = [255, 256, 257, 1023, 1025, 4095, 4096, 4097, 6000, 16383, 16384, 16385, 32769]
+    for k, nw in enumerate(sizes if not quick else [257, 1025, 4097, 6000, 16384, 16385]):
+        det = (0xA1, 0xA3, 0xA4, 0xA2)[k % 4]
+        ev = G.gen_event(rng, nsub=0)
+        sd = G.gen_subdet(rng, det_id=det); sd.pop("raw", None)
+        rob = G.gen_rob(rng, det, big=True); rob["data"] = G.gen_data(rng, det, nw)
+        ros = G.gen_ros(rng, det); ros["robs"] = [rob]
+        sd["ros"] = [ros]; ev["subs"] = [sd]
+        cases.append({"mask": 63, "w": G.enc_items([(None, ev)]).w, "kind": "wellformed", "label": f"rob-{nw}-words"})
     nbase = 0
     want = 10 if quick else 80
     while nbase < want:
